@@ -131,7 +131,7 @@ def _reuse_worker(job):
 def run(ctx) -> Result:
     res = Result("C03")
     proj = ctx.proj
-    res.rule("W1", "every Consensus built by an algorithm carries the caller's dataset and scheme", 7)
+    res.rule("W1", "every Consensus built by an algorithm carries the caller's dataset and scheme", 3)
     res.rule("W2", "well-formed consensus over exactly the universe for every configuration x dataset x scheme "
                    "(end-to-end abstract evaluation)", 80)
     res.rule("W3", "KwikSort three-way emission covers every remaining element exactly once", 1)
